@@ -5,13 +5,19 @@ Proved for the iteration engine (proof, partial for the property as a whole): ev
 history that the factory model accepts (`Build.tree … = .ok r`, i.e. no ColumnError / EngineError /
 row-order error was raised while building) yields a tree whose execution SUCCEEDS - no missing-column
 lookup (`KeyError`), no unsupported node, no assertion - and likewise every well-formed tree.
-For the SQL engine the corresponding statement (the generated SELECT is accepted by the database)
-is validated, not proved: every generated query is run on SQLite by the check, and the model's
-acceptance judgement `Query.accepts` is compared with SQLite's verdict.  One SQL-side ingredient is
-proved: translating an expression cannot fail with a missing-column lookup when the referenced
-columns are available (`Props/C12.sql_expression_translates`).
+For the SQL engine: `sql_compile_never_fails` - on every tree satisfying the invariant the engine maintains
+(`Good`, which includes the shape `to_payload` handles: `Rel.compOK`) whose leaves and processed markers hold
+payloads, `_select_to_executable` SUCCEEDS: no missing-column lookup (`KeyError`) in a SELECT list, an
+ORDER BY, a WHERE term, an ON clause or a calculated column, and no unsupported node;
+`sql_payload_never_fails` the same for `to_payload`; `conformed_tree_compiles` and
+`accepted_sql_history_compiles` compose it with the tree-building induction (C17), which proves that conform
+and the factories only ever build that shape.
+That the database then ACCEPTS the generated SELECT is validated, not proved: every generated query is run on
+SQLite by the check, and the model's acceptance judgement `Query.accepts` is compared with SQLite's verdict.
 -/
 import DafRel.Props.C01
+import DafRel.Lemmas.SqlCompileTotal
+import DafRel.Lemmas.SqlHistory
 
 namespace DafRel.Props.C08
 
@@ -38,5 +44,51 @@ theorem accepted_history_iterates (σ : Leaves) (st : Store) (eng : Engine) (hk 
 theorem finish_apply_raises_only_engine_error (σ : Leaves) (t : Rel) (op : UOp) (hwf : t.WF)
     (hop : op.wfOn t.columns = true) (e : Err) (h : op.finishApply t = .error e) : e = .engine :=
   finishApply_error σ t op hwf hop e h
+
+/-- **Compiling never fails with an internal error**: every Good Select (the invariant includes the shape
+`to_payload` handles, `Rel.compOK`) whose leaves and processed markers hold payloads compiles. -/
+theorem sql_compile_never_fails (σ : Leaves) (s : SqlState) (fuel : Nat) (S : Rel) (ctr : Nat)
+    (hg : Good σ S) (hs : S.isSelect = true) (hrd : S.PayReady s)
+    (hh : S.height ≤ fuel + 1) : ∃ q c, compileSelect s fuel S ctr = .ok (q, c) :=
+  (compile_total σ s fuel).select S ctr hg hs hrd (hg.compOK hs false) hh
+
+theorem sql_payload_never_fails (σ : Leaves) (s : SqlState) (fuel : Nat) (t : Rel) (ctr : Nat)
+    (hg : Good σ t) (hrd : t.PayReady s) (hsh : t.compOK false = true) (hh : t.height ≤ fuel) :
+    ∃ p c, toPayload s fuel t ctr = .ok (p, c) ∧ PayDom p t.columns :=
+  (compile_total σ s fuel).payload t ctr hg hrd hsh hh
+
+/-- Conform then compile: for every raw SQL tree (leaves, materializations, transfers, the seven unary
+operations, chains, joins - nested to any depth), the conformed tree compiles, provided its leaves and markers
+hold payloads.  That conform produces the compilable shape is part of what is proved. -/
+theorem conformed_tree_compiles (σ : Leaves) (s : SqlState) (st : Store) (fuel : Nat) (r : Rel) (c : Res)
+    (hwf : r.WF) (htr : r.Truthful σ) (hraw : r.RawSql) (hc : conform st fuel r = .ok c)
+    (hrd : (c.get r).PayReady s) (hh : (c.get r).height ≤ defaultFuel + 1) :
+    ∃ q n, compileSelect s defaultFuel (c.get r) 0 = .ok (q, n) := by
+  obtain ⟨gc, cok⟩ := (treeBuild_sound σ st fuel).conform r c (raw_good σ r hwf htr hraw) hc
+  exact (compile_total σ s defaultFuel).select _ 0 gc cok.ok.isSel hrd (gc.compOK cok.ok.isSel false) hh
+
+/-- ... and so does the tree of every construction history inside one SQL engine (any number of unary
+operations, chains, joins, materializations): whatever the factories accepted compiles. -/
+theorem accepted_sql_history_compiles (σ : Leaves) (s : SqlState) (st : Store) (eng : Engine) (hk : eng.kind = .sql)
+    (b : SqlBuild) (r : Rel) (c : Res) (hok : b.ok σ) (h : b.tree st eng = .ok r)
+    (hc : conform st defaultFuel r = .ok c)
+    (hrd : (c.get r).PayReady s) (hh : (c.get r).height ≤ defaultFuel + 1) :
+    ∃ q n, compileSelect s defaultFuel (c.get r) 0 = .ok (q, n) := by
+  have B := sql_build_invariant σ st eng hk b r hok h
+  obtain ⟨gc, cok⟩ := (treeBuild_sound σ st defaultFuel).conform r c B.good hc
+  exact (compile_total σ s defaultFuel).select _ 0 gc cok.ok.isSel hrd (gc.compOK cok.ok.isSel false) hh
+
+/-! non-vacuity: a join of a sorted, sliced table with another one -/
+private def ta : Tag := ⟨"a", true⟩
+private def tb : Tag := ⟨"b", false⟩
+private def tc : Tag := ⟨"c", false⟩
+private def e0 : Engine := ⟨0, .sql⟩
+private def h0 : SqlBuild :=
+  .join (.op (.slice 0 (some 3)) (.op (.sort [⟨.ref tb, false⟩]) (.leaf 1 [ta, tb] "L" 0 none 0)))
+    (.leaf 2 [ta, tc] "M" 0 none 0) (.lit true)
+private def s0 : SqlState :=
+  { payloads := [(1, tablePayload "L" 1 0 [ta, tb]), (2, tablePayload "M" 2 1 [ta, tc])], tables := [[], []] }
+private def r0 : Rel := ((h0.tree [] e0).toOption).getD default
+example : (r0.isSelect, r0.compOK false, decide (r0.height ≤ 100)) = (true, true, true) := by decide +kernel
 
 end DafRel.Props.C08
